@@ -108,3 +108,91 @@ Section Concrete.
     - intros i Hi. unfold blk. apply block_bounds_flat_block.
   Qed.
 End Concrete.
+
+(* ---- order independence for flat families: the same blocks written in another order are
+   accepted as well (one family), and the generated main impl covers the same queries ---- *)
+Lemma NoDup_map_inj_on {A B} (g : A -> B) (l : list A) :
+  NoDup l -> (forall x y, In x l -> In y l -> g x = g y -> x = y) -> NoDup (map g l).
+Proof.
+  induction 1 as [|x l Hx Hl IH]; intro Hinj; [constructor|]. cbn [map]. constructor.
+  - intro Hin. apply in_map_iff in Hin. destruct Hin as (y & Hy & Hyl).
+    assert (y = x) by (apply Hinj; [right; exact Hyl|left; reflexivity|exact Hy]). subst. contradiction.
+  - apply IH. intros a b Ha Hb. apply Hinj; right; assumption.
+Qed.
+
+Lemma NoDup_map_seq_inj {B} (f : nat -> B) n :
+  NoDup (map f (seq 0 n)) -> forall i j, i < n -> j < n -> f i = f j -> i = j.
+Proof.
+  intros Hnd i j Hi Hj Hf.
+  assert (Hlen : List.length (map f (seq 0 n)) = n) by (rewrite map_length, seq_length; reflexivity).
+  rewrite (NoDup_nth (map f (seq 0 n)) (f 0)) in Hnd.
+  apply Hnd; rewrite ?Hlen; try assumption.
+  rewrite !(map_nth f (seq 0 n) 0), !seq_nth by assumption. exact Hf.
+Qed.
+
+Section Permuted.
+  Variable W : world.
+  Variables tr self B TR : term.
+  Variable a : string.
+  Variable n : nat.
+  Variable names : nat -> list string.
+  Variables T p items : nat -> term.
+  Variables sigma tau : nat -> nat.         (* the new order and its inverse *)
+
+  Let blk (i : nat) : term := flat_block (names i) tr self B (T i) (items i).
+  Let blk' (i : nat) : term := blk (sigma i).
+  Let Hd : term := Node (K "GroupId" "") [tr; self].
+
+  Hypothesis Hn : 0 < n.
+  Hypothesis Hnodup : NoDup (map blk (seq 0 n)).
+  Hypothesis Hcwf : cwf [] Hd = true.
+  Hypothesis Hbind : forall i, i < n -> path_bindings (T i) = [(a, p i)].
+  Hypothesis Hkey : forall i j, i < n -> j < n -> tb_eqb (T i) (T j) = true.
+  Hypothesis Htr : forall i, i < n -> trait_ref (T i) = TR.
+  Hypothesis Hns : forall rho, is_sized_path (apply rho TR) = false.
+  Hypothesis Hrows : forall i j, i < n -> j < n -> i <> j -> sup (p i) (p j) = None.
+  Hypothesis Hsig : forall i, i < n -> sigma i < n.
+  Hypothesis Htau : forall j, j < n -> tau j < n /\ sigma (tau j) = j.
+  Hypothesis Hinj : forall i j, i < n -> j < n -> sigma i = sigma j -> i = j.
+
+  Lemma nodup_permuted : NoDup (map blk' (seq 0 n)).
+  Proof.
+    unfold blk'. rewrite <- (map_map sigma blk). apply NoDup_map_inj_on.
+    - apply NoDup_map_inj_on; [apply seq_NoDup|].
+      intros x y Hx Hy. apply in_seq in Hx. apply in_seq in Hy. apply Hinj; lia.
+    - intros x y Hx Hy. apply in_map_iff in Hx. apply in_map_iff in Hy.
+      destruct Hx as (i & <- & Hi), Hy as (j & <- & Hj). apply in_seq in Hi. apply in_seq in Hj.
+      intro E. apply (NoDup_map_seq_inj blk n Hnodup); [apply Hsig; lia|apply Hsig; lia|exact E].
+  Qed.
+
+  Theorem flat_family_order_independent fuel : n < fuel ->
+    (exists g, search fuel (map blk (seq 0 n)) = Some [(Hd, (g, seq 0 n))]) /\
+    (exists g', search fuel (map blk' (seq 0 n)) = Some [(Hd, (g', seq 0 n))]) /\
+    forall q,
+      main_applies term term (keyvals W Hd B TR a) (map (member_of W Hd blk p) (seq 0 n)) q = true <->
+      main_applies term term (keyvals W Hd B TR a)
+                   (map (member_of W Hd blk' (fun i => p (sigma i))) (seq 0 n)) q = true.
+  Proof.
+    intro Hf. split; [|split].
+    - destruct (flat_blocks_one_family tr self B a n names T p items Hn Hnodup Hcwf Hbind Hkey Hrows fuel Hf) as (g & Hg & _).
+      exists g. exact Hg.
+    - assert (H2 : exists g, search fuel (map blk' (seq 0 n)) = Some [(Hd, (g, seq 0 n))] /\
+                             abg_payloads g = map (fun i => [Some (p (sigma i))]) (seq 0 n)).
+      { apply (flat_blocks_one_family tr self B a n (fun i => names (sigma i)) (fun i => T (sigma i))
+                 (fun i => p (sigma i)) (fun i => items (sigma i))); auto; try exact nodup_permuted. }
+      destruct H2 as (g & Hg & _). exists g. exact Hg.
+    - intro q.
+      assert (R1 : main_applies term term (keyvals W Hd B TR a) (map (member_of W Hd blk p) (seq 0 n)) q = true <->
+                   exists i, i < n /\ applies W (blk i) q = true).
+      { apply (flat_blocks_exact_coverage W tr self B TR a n names T p items Hbind Htr Hns q). }
+      assert (R2 : main_applies term term (keyvals W Hd B TR a)
+                     (map (member_of W Hd blk' (fun i => p (sigma i))) (seq 0 n)) q = true <->
+                   exists i, i < n /\ applies W (blk' i) q = true).
+      { apply (flat_blocks_exact_coverage W tr self B TR a n (fun i => names (sigma i)) (fun i => T (sigma i))
+                 (fun i => p (sigma i)) (fun i => items (sigma i))); auto. }
+      rewrite R1, R2. split.
+      + intros (j & Hj & Ha). destruct (Htau j Hj) as (Ht & Hs). exists (tau j). split; [exact Ht|].
+        unfold blk'. rewrite Hs. exact Ha.
+      + intros (i & Hi & Ha). exists (sigma i). split; [apply Hsig; exact Hi|exact Ha].
+  Qed.
+End Permuted.
